@@ -38,6 +38,23 @@ def showCtor {α} : Except CtorErr α → String
 def showExB : Except IdxErr BVec → String
   | .ok v => showBits v | .error _ => "IndexError"
 
+/-- index lists on the wire: `a,b;c,d;...` or `_` (empty) -/
+def parseIdxList? (s : String) : Option (List (Int × Int)) :=
+  if s == "_" then some [] else (s.splitOn ";").mapM parseIdx?
+def parseIdx3List? (s : String) : Option (List (Int × Int × Int)) :=
+  if s == "_" then some [] else (s.splitOn ";").mapM parseIdx3?
+def parseOp1? (op : String) : Option P1 :=
+  match op.toList with | [ch] => P1.ofChar? ch | _ => none
+
+/-- ONE multi-index call `site(op, i1, i2, ...)` on a Pauli holding `v` for the families whose `site` refuses indices of
+the wrong kind: the indices are applied in order; the first index that is not a site index raises IndexError and leaves
+the indices before it applied (reply `IndexError:<bits>`); out-of-lattice site indices have no effect and the indices
+after them are still applied -/
+def sitesCall (isSite : Int × Int → Bool) (step : BVec → Int × Int → BVec) (v : BVec) (l : List (Int × Int)) : String :=
+  let pre := l.takeWhile isSite
+  let out := pre.foldl step v
+  if pre.length == l.length then showBits out else s!"IndexError:{showBits out}"
+
 def parsePairs? (s : String) : Option (List ((Int × Int) × (Int × Int))) :=
   if s == "_" then some [] else
   (s.splitOn ";").mapM fun p =>
@@ -68,6 +85,10 @@ def planar : List String → Option String
       let r ← parseInt? r; let c ← parseInt? c; let i ← parseIdx? i
       let op ← (match op.toList with | [ch] => P1.ofChar? ch | _ => none)
       pure (if Planar.isSite i.1 i.2 then showBits (Planar.site r c op (Planar.identity r c) i) else "IndexError")
+  | ["sites", r, c, op, v, l] => do
+      let r ← parseInt? r; let c ← parseInt? c; let op ← parseOp1? op; let v ← parseBits? v; let l ← parseIdxList? l
+      if v.length != 2 * (Planar.nQubits r c).toNat then none
+      else pure (sitesCall (fun i => Planar.isSite i.1 i.2) (Planar.site r c op) v l)
   | ["opat", r, c, v, i] => do
       let r ← parseInt? r; let c ← parseInt? c; let v ← parseBits? v; let i ← parseIdx? i
       pure (if Planar.isSite i.1 i.2 && Planar.inBounds r c i.1 i.2
